@@ -83,7 +83,7 @@ def run(ctx, res, cmd="c11", pid="C11"):
     res.extra["line_kinds"] = kinds
     res.extra["framing_distribution"] = framings
     res.extra["harness_stats"] = {k: int(v) for k, v in stats.items()}
-    res.extra["exhaustive"] = ("RX/VX lines: all 2^(n-1) cut sets x 2 EOF modes of the stream; RK/VK: all cut sets with <= k cuts; "
+    res.extra["exhaustive_families"] = ("RX/VX lines: all 2^(n-1) cut sets x 2 EOF modes of the stream; RK/VK: all cut sets with <= k cuts; "
                                "cutset_runs in harness_stats counts the individual receive runs")
     res.samples = ([l for l in lines if l.startswith("RX")][:2] + [l for l in lines if l.startswith("R\t") and len(l) < 300][:3]
                    + [l for l in lines if l.startswith("D")][:1])
